@@ -290,12 +290,16 @@ def run_flow(sc, sink):
     sink.corr("create-set %s %s %s" % (sc["reqs"], vr(sc["codec"]), vr(sc["magic"])), ["ok " + vr(mv)], sc)
     args = " ".join(vr(a) for a in [cid, sc["corr"], [[sc["topic"], sc["partition"], mv]], sc["acks"], sc["timeout"], sc["version"]])
     sink.corr("enc produce " + args, ["ok " + vr(frame)], sc)
-    sink.mon("mon-c04 produce %s %s" % (args, vr(frame)), sc, ["c04-nonconforming-produce"])
-    if sc["codec"] == 1:
-        # the wrapper's payload, decompressed by Python's gzip (not afkak's), must be the inner set
+    # what the CALLER supplied: one message per payload, in order, each with the key of ITS request
+    want = [[sc["magic"], 0, k, p_, sc["now"] if sc["magic"] == 1 else None] for k, ps in reqs for p_ in ps]
+    if sc["codec"] == 0:
+        wargs = " ".join(vr(a) for a in [cid, sc["corr"], [[sc["topic"], sc["partition"], want]], sc["acks"], sc["timeout"], sc["version"]])
+        sink.mon("mon-c04 produce %s %s" % (wargs, vr(frame)), sc, ["c04-nonconforming-produce"])
+    else:
+        sink.mon("mon-c04 produce %s %s" % (args, vr(frame)), sc, ["c04-nonconforming-produce"])
+        # the wrapper's payload, decompressed by Python's gzip (not afkak's), must be the set of the caller's messages
         inner = pygzip.decompress(msgs[0].value)
-        pv = [[m.magic, m.attributes, m.key, m.value, m.timestamp] for m in plain]
-        sink.mon("mon-c04-set %s n %s" % (vr(pv), vr(inner)), sc, ["c04-gzip-inner-nonconforming"])
+        sink.mon("mon-c04-set %s n %s" % (vr(want), vr(inner)), sc, ["c04-gzip-inner-nonconforming"])
         if msgs[0].attributes & 0x07 != 1 or msgs[0].key is not None:
             sink.mon("bad-wrapper-attributes", sc, ["c04-gzip-attributes"])
 
@@ -580,7 +584,7 @@ def corpus():
     return out
 
 
-QUICK = {"prim": 1500, "msg": 400, "req": 1500, "flow": 120, "version": 60, "big": 1 << 16}
+QUICK = {"prim": 3000, "msg": 900, "req": 4200, "flow": 300, "version": 120, "big": 1 << 16}
 THOROUGH_SHARD = {"prim": 4000, "msg": 1200, "req": 4500, "flow": 400, "version": 150, "big": 1 << 20}
 
 
